@@ -54,6 +54,8 @@ static void mon_c01(World& w) {
             saw_publish = true; uint16_t pid = e.pkt.pid; why = "the broker had not sent the final acknowledgement for the PUBLISH's packet id before the completion";
             for (size_t j = i + 1; j < lim && !ok; ++j) {
                 auto& a = wire[j]; if (a.c2b || a.malformed || a.raw_hostile || !a.pkt.has_pid || a.pkt.pid != pid) continue;
+                // the client cannot have consumed an acknowledgement it has not read yet
+                if (a.conn >= int(o.read_at_done.size()) || a.b2c_end > o.read_at_done[a.conn]) { why = "the acknowledgement had not been read by the client when the handler ran"; continue; }
                 uint8_t arc = a.pkt.has_rc ? a.pkt.rc : 0;
                 if (o.qos == 1 && a.pkt.type == ref::PUBACK) {
                     if (o.rc != arc) why = "handler reason code differs from the PUBACK's"; else if (!ref::props_equal(o.rprops, a.pkt.props)) why = "handler properties differ from the PUBACK's"; else ok = true;
@@ -62,6 +64,7 @@ static void mon_c01(World& w) {
                     if (arc >= 0x80) { if (o.rc == arc) ok = true; else why = "handler reason code differs from the failing PUBREC's"; continue; }
                     for (size_t k = j + 1; k < lim && !ok; ++k) { auto& r = wire[k]; if (!r.c2b || r.malformed || r.pkt.type != ref::PUBREL || r.pkt.pid != pid) continue;
                         for (size_t l = k + 1; l < lim && !ok; ++l) { auto& c = wire[l]; if (c.c2b || c.malformed || c.raw_hostile || c.pkt.type != ref::PUBCOMP || c.pkt.pid != pid) continue;
+                            if (c.conn >= int(o.read_at_done.size()) || c.b2c_end > o.read_at_done[c.conn]) { why = "the PUBCOMP had not been read by the client when the handler ran"; continue; }
                             uint8_t crc = c.pkt.has_rc ? c.pkt.rc : 0;
                             if (o.rc != crc) why = "handler reason code differs from the PUBCOMP's"; else if (!ref::props_equal(o.rprops, c.pkt.props)) why = "handler properties differ from the PUBCOMP's"; else ok = true; } }
                 }
@@ -418,6 +421,7 @@ static void mon_c14(World& w) {
             if (!same) continue; why = "no well-formed acknowledgement with the request's packet id and the handler's reason codes was sent before the completion";
             for (size_t j = i + 1; j < o.wire_mark_done && !ok; ++j) { auto& a = wire[j]; if (a.c2b || a.pkt.type != ackt || a.pkt.pid != e.pkt.pid) continue;
                 if (a.malformed || a.raw_hostile) continue;
+                if (a.conn >= int(o.read_at_done.size()) || a.b2c_end > o.read_at_done[a.conn]) continue;   // not read yet
                 if (a.pkt.rcs.size() != n) continue; bool adm = true; for (auto c : a.pkt.rcs) if (!ref::rc_listed(ackt, c)) adm = false; if (!adm) continue;
                 if (a.pkt.rcs == o.rcs && ref::props_equal(a.pkt.props, o.rprops)) ok = true; else why = "handler reason codes / properties differ from the acknowledgement's"; } }
         if (o.rcs.size() != n) { ok = false; why = "handler received " + std::to_string(o.rcs.size()) + " reason codes for " + std::to_string(n) + " topics"; }
@@ -549,7 +553,8 @@ static std::vector<Scenario> publish_scenarios(uint32_t mon, int tier, uint32_t 
     { auto s = base("P1-qos1", {RUN(), PUB(1, 1, false, pp)}, fam, tier ? 3 : 2, mon); s.broker.ack_props = true; s.broker.puback_rc = 0x10; v.push_back(s); }
     { auto s = base("P2-qos2", {RUN(), PUB(2, 1, true, pp)}, fam, tier ? 3 : 2, mon); s.broker.ack_props = true; v.push_back(s); }
     { auto s = base("P3-burst-121", {RUN(), PUB(1, 1), PUB(2, 2), PUB(1, 3)}, fam & ~(F_WRSHORT), tier ? 2 : 1, mon); v.push_back(s); }
-    { auto s = base("P4-sequential-id-reuse", {RUN(), PUB(1, 1), BARRIER(), PUB(2, 2), BARRIER(), PUB(1, 3)}, fam & ~(F_WRSHORT | F_CHUNK), tier ? 2 : 1, mon); v.push_back(s); }
+    { auto s = base("P4-sequential-id-reuse", {RUN(), PUB(1, 1), BARRIER(), PUB(2, 2), BARRIER(), PUB(1, 3)}, fam & ~(F_WRSHORT | F_CHUNK | F_NOREPLY | F_LOSS | F_HS | F_CONN), tier ? 3 : 2, mon); v.push_back(s); }
+    { auto s = base("P8-same-qos-id-reuse", {RUN(), PUB(1, 1), BARRIER(), PUB(1, 2), BARRIER(), PUB(2, 3), BARRIER(), PUB(2, 4)}, F_WR | F_REORDER | F_RDCUT | F_TAIL | F_DELAY | F_BCLOSE, tier ? 3 : 2, mon); s.broker.ack_props = true; v.push_back(s); }
     { auto s = base("P5-qos2-failing-pubrec", {RUN(), PUB(2, 1), PUB(1, 2)}, fam & ~(F_WRSHORT | F_CHUNK), tier ? 2 : 1, mon); s.broker.pubrec_rc = 0x97; v.push_back(s); }
     { auto s = base("P6-tcp-qos1-qos2", {RUN(), PUB(1, 1), PUB(2, 2)}, fam & ~(F_WRSHORT | F_CHUNK), tier ? 2 : 1, mon); s.flavour = 1; v.push_back(s); }
     { auto s = base("P7-two-brokers", {RUN(), PUB(1, 1), PUB(2, 2)}, F_CONN | F_HS | F_WR | F_RDCUT | F_BCLOSE, tier ? 3 : 2, mon); s.hosts = "b0,b1"; v.push_back(s); }
@@ -563,6 +568,8 @@ std::vector<Scenario> scenarios_for(const std::string& prop, int tier) {
         v = publish_scenarios(M_C02, tier);
         { auto s = base("L3-subscribe", {RUN(), SUB({{"a/b", 1}, {"c/#", 2}})}, RECOVERABLE | SCHED, tier ? 3 : 2, M_C02); v.push_back(s); }
         { auto s = base("L4-unsubscribe", {RUN(), SUB({{"a/b", 1}}), BARRIER(), UNSUB({"a/b"})}, RECOVERABLE | F_REORDER, tier ? 2 : 1, M_C02); v.push_back(s); }
+        { auto s = base("L6-rm1-121", {RUN(), PUB(1, 1), PUB(2, 2), PUB(1, 3)}, RECOVERABLE | F_REORDER | F_DELAY, 2, M_C02); s.broker.connack_props = {ref::pnum(0x21, 1)}; v.push_back(s); }
+        { auto s = base("L7-rm2-2121", {RUN(), PUB(2, 1), PUB(1, 2), PUB(2, 3), PUB(1, 4)}, RECOVERABLE & ~(F_CONN | F_HS), tier ? 2 : 2, M_C02); s.broker.connack_props = {ref::pnum(0x21, 2)}; v.push_back(s); }
         { auto s = base("L5-mixed", {RUN(), PUB(1, 1), SUB({{"x", 0}}), PUB(2, 2), UNSUB({"y"})}, RECOVERABLE | F_REORDER, tier ? 2 : 1, M_C02); v.push_back(s); }
     }
     else if (prop == "C03") {
@@ -656,6 +663,10 @@ std::vector<Scenario> scenarios_for(const std::string& prop, int tier) {
         { auto s = base("H5-traffic-before-connack", {PUB(1, 1), SUB({{"a", 1}}), RUN(), PUB(2, 2)}, fam | F_CHUNK | F_DELAY, 2, M_C10); s.expect_all_success = false; v.push_back(s); }
         { auto s = base("H6-auth-two-step", {RUN(), PUB(1, 1)}, fam | F_WR | F_RDCUT, 2, M_C10 | M_C02); s.auth.present = true; s.auth.method = "SCRAM"; s.broker.auth_method = "SCRAM"; s.broker.auth_rounds = 2; v.push_back(s); }
         { auto s = base("H7-tcp-reconnects", {RUN(), PUB(1, 1), PUB(1, 2)}, fam | F_WR | F_RDCUT | F_BCLOSE, 2, M_C10 | M_C02); s.flavour = 1; s.hosts = "b0,b1"; v.push_back(s); }
+        // a CONNACK rich in properties (Server Keep Alive, Assigned Client Identifier, limits ...) must not leak into the next CONNECT
+        { auto s = base("H8-rich-connack-then-reconnect", {RUN(), PUB(1, 1), PUB(0, 2)}, fam | F_WR | F_RDCUT | F_BCLOSE | F_LOSS, 3, M_C10 | M_C02); s.hosts = "b0,b1"; s.client_id = ""; s.keep_alive = 10; s.user = "u"; s.connect_props = {ref::pnum(0x11, 60), ref::pnum(0x21, 20), ref::ppair("ck", "cv")};
+          s.broker.connack_props = {ref::pnum(0x11, 5), ref::pnum(0x21, 7), ref::pnum(0x24, 1), ref::pnum(0x25, 1), ref::pnum(0x27, 4096), ref::pnum(0x22, 3), ref::pstr(0x1F, "welcome"), ref::ppair("sk", "sv"), ref::pnum(0x28, 1), ref::pnum(0x29, 1), ref::pnum(0x2A, 1), ref::pnum(0x13, 30), ref::pstr(0x1A, "resp/info"), ref::pstr(0x1C, "other:1883")};
+          s.max_steps = 900; v.push_back(s); s.name = "H9-rich-refusal-then-next-broker"; s.broker.connack_rc_script = {0x89}; s.D = 2; v.push_back(s); }
         // configuration product (one handshake each, D = 0; the CONNECT is compared with the configuration)
         std::vector<uint8_t> cp_ids = {0x11, 0x21, 0x27, 0x22, 0x19, 0x17, 0x26};
         int n_cfg = 0;
@@ -828,6 +839,9 @@ std::vector<Scenario> scenarios_for(const std::string& prop, int tier) {
             {"qos2-await-pubcomp", {RUN(), PUB(2, 1)}, ref::PUBREL, 1, ref::encode(pc)},
             {"subscribe-inflight", {RUN(), SUB({{"a", 1}, {"b/#", 2}})}, ref::SUBSCRIBE, 1, ref::encode(sa)},
         };
+        // unsolicited (stale / duplicate) well-formed acknowledgements for the id the next request will get
+        std::vector<std::string> stale; { ref::Packet q = pa; q.rc = 0x10; q.props = {ref::pstr(0x1F, "stale")}; stale.push_back(ref::encode(q)); q.type = ref::PUBREC; q.rc = 0; stale.push_back(ref::encode(q)); q.type = ref::PUBCOMP; stale.push_back(ref::encode(q));
+            ref::Packet z = sa; z.rcs = {0x80, 0x80}; stale.push_back(ref::encode(z)); z.type = ref::UNSUBACK; z.rcs = {0x11}; stale.push_back(ref::encode(z)); }
         int id = 0;
         auto add = [&](const Ph& ph, const std::string& raw, const char* kind) {
             Scenario s = base(std::string("Z-") + ph.name + "-" + kind + "-" + std::to_string(id++), ph.script, F_CHUNK | F_BYTE, std::min<int>(tier ? 4 : (small ? 1 : 2), int(raw.size()) - 1), M_C19 | M_C01 | M_C14 | M_C02);
@@ -835,6 +849,7 @@ std::vector<Scenario> scenarios_for(const std::string& prop, int tier) {
             if (ph.on_type) { s.broker.hostile.enabled = true; s.broker.hostile.on_type = ph.on_type; s.broker.hostile.nth = ph.nth; s.broker.hostile.raw = raw; }
             else for (auto& a : s.script) if (a.k == Action::BRAW) a.payload = raw;
             s.max_steps = 400; s.expect_note = rep_hex(raw); v.push_back(s); };
+        for (auto& st_ : stale) for (int q = 1; q <= 2; ++q) { Ph ph{"idle-stale-ack", {RUN(), WAIT_HS(1), A(Action::BRAW), PUB(q, 1), SUB({{"a", 1}, {"b/#", 2}})}, 0, 0, ""}; add(ph, st_, "stale"); add(ph, st_ + st_, "stale2"); }
         for (auto& ph : phases) {
             for (auto& x : strs) add(ph, x, "str");
             if (ph.reply.empty()) continue;
